@@ -387,6 +387,7 @@ func (h *harness) evalServedObs(c Case) (o servedObs, what, kind string) {
 	}
 	o = h.w.serve(c.E, c.Policy, c.PolicySeed, r)
 	canon, _ := servedCanon(r, o)
+	h.countServed(c, o, canon)
 	if h.verbose {
 		fmt.Printf("request:        %s\n", func() string { q, v := r.build(); b, _ := json.Marshal(v); return q + " " + string(b) }())
 		fmt.Printf("response:       %s\n", o.Body)
@@ -423,6 +424,70 @@ func (h *harness) evalServedObs(c Case) (o servedObs, what, kind string) {
 		return o, fmt.Sprintf("connection field: implementation %s, model %s", canon, rep), "correspondence"
 	}
 	return o, "", ""
+}
+
+// countServed feeds the distribution: modes, getter policies, argument shapes, outcomes.
+func (h *harness) countServed(c Case, o servedObs, canon string) {
+	r := c.Req
+	m := r.Mode + "/sync"
+	if r.Promise {
+		m = r.Mode + "/promise"
+	}
+	h.run.Count("mode:" + m)
+	if r.Mode == "window" {
+		h.run.Count("getter-policy:" + policyNames[c.Policy])
+	}
+	arg := func(a *CurArg) string {
+		switch {
+		case a == nil:
+			return "absent"
+		case a.Kind == "raw":
+			return "raw"
+		case indexOf(c.E, a.C) >= 0:
+			return "edge"
+		}
+		return "foreign"
+	}
+	h.run.Count("after:" + arg(r.After))
+	h.run.Count("before:" + arg(r.Before))
+	switch {
+	case r.First != nil && r.Last != nil:
+		h.run.Count("count:both")
+	case r.First == nil && r.Last == nil:
+		h.run.Count("count:neither")
+	case r.First != nil && *r.First < 0 || r.Last != nil && *r.Last < 0:
+		h.run.Count("count:negative")
+	case r.First != nil && *r.First == 0 || r.Last != nil && *r.Last == 0:
+		h.run.Count("count:zero(lazy path)")
+	case r.First != nil:
+		h.run.Count("count:first")
+	default:
+		h.run.Count("count:last")
+	}
+	switch {
+	case o.Panic != "":
+		h.run.Count("outcome:panic")
+	case strings.HasPrefix(canon, "(error"):
+		h.run.Count("outcome:" + canon)
+	default:
+		switch {
+		case len(o.Edges) == 0:
+			h.run.Count("outcome:page-empty")
+		case len(o.Edges) == len(c.E):
+			h.run.Count("outcome:page-all")
+		default:
+			h.run.Count("outcome:page-proper")
+		}
+		if o.HasPI {
+			h.run.Count(fmt.Sprintf("flags:prev=%v,next=%v", o.HasPrev, o.HasNext))
+		}
+		if r.After != nil && r.After.Kind == "raw" || r.Before != nil && r.Before.Kind == "raw" {
+			h.run.Count("raw-cursor:accepted-as-position")
+		}
+	}
+	if len(o.WinCalls) == 0 && o.AllCalls == 0 && o.Panic == "" && !strings.HasPrefix(canon, "(error") {
+		h.run.Count("application-not-called(lazy)")
+	}
 }
 
 // ---- walks --------------------------------------------------------------------------------------------
